@@ -282,6 +282,13 @@ func checkBalloons(e *executor, r *stepResult) *vfkit.Violation {
 			}
 			sig := fmt.Sprintf("container-in-%d-balloons", len(bl))
 			// attribute the loss to the request in which this container lost its balloon
+			// (a container created in the same concurrent phase as the update was never seen in one)
+			if lost[c.ID] == "" && !had[c.ID] && r.Op.Kind == "phase" {
+				lost[c.ID] = r.lostBy(c.ID)
+				if lost[c.ID] == "updateConfig" && r.CfgError != nil {
+					lost[c.ID] = "updateConfig-rejected"
+				}
+			}
 			switch {
 			case len(bl) != 0:
 			case lost[c.ID] == "updateConfig-rejected":
